@@ -1,6 +1,7 @@
 use crate::common::Tier;
 
 pub mod analysis;
+pub mod artifacts;
 pub mod dbg;
 pub mod ll;
 pub mod lr;
@@ -17,6 +18,7 @@ pub fn run(id: &str, tier: Tier, replay: Option<&str>) -> i32 {
         "C19" | "C20" => robust::run(id, tier, replay),
         "C13" | "C14" | "C15" | "C16" | "C17" => scanner::run(id, tier, replay),
         "C31" | "C32" => small::run(id, tier, replay),
+        "C18" | "C21" | "C25" => artifacts::run(id, tier, replay),
         "C05" | "C06" | "C07" | "C08" => analysis::run(id, tier, replay),
         "dbg" => dbg::run(&std::env::args().skip(2).collect::<Vec<_>>()),
         "spaces" => {
